@@ -402,7 +402,45 @@ func checkSetIsIota(w *World, r *Result) {
 			call, ok := c.expr.(*ast.CallExpr)
 			return ok && c.truth && strings.HasSuffix(fullName(calleeOf(info, call)), "(*Enum).IsInteger") || (ok && c.truth && strings.HasSuffix(fullName(calleeOf(info, call)), "analysis.Enum).IsInteger"))
 		})
-		r.cond(intOK, "PTH-C10a", name, "flag => integer-backed", pos, "dominated by `if !e.IsInteger() { return }`", "IsIota can be set for an enum that is not integer-backed")
+		if !intOK {
+			// the guard may have been moved to the callers: every call of this function is made under IsInteger() of
+			// the value it is called on
+			sites, all := 0, true
+			for _, caller := range sortedFuncs(w) {
+				if caller.Decl.Body == nil {
+					continue
+				}
+				ci := caller.Pkg.TypesInfo
+				ast.Inspect(caller.Decl.Body, func(x ast.Node) bool {
+					call, ok := x.(*ast.CallExpr)
+					if !ok || calleeOf(ci, call) != fi.Obj {
+						return true
+					}
+					sites++
+					recv := ""
+					if sel, ok := call.Fun.(*ast.SelectorExpr); ok {
+						recv = es(sel.X)
+					}
+					guarded := false
+					for _, c := range pathConds(caller.Decl, call) {
+						if c.expr == nil || !c.truth {
+							continue
+						}
+						if gc, ok := ast.Unparen(c.expr).(*ast.CallExpr); ok && strings.HasSuffix(fullName(calleeOf(ci, gc)), "Enum).IsInteger") {
+							if sel, ok := gc.Fun.(*ast.SelectorExpr); ok && es(sel.X) == recv {
+								guarded = true
+							}
+						}
+					}
+					if !guarded {
+						all = false
+					}
+					return true
+				})
+			}
+			intOK = sites > 0 && all
+		}
+		r.cond(intOK, "PTH-C10a", name, "flag => integer-backed", pos, "dominated by `if !e.IsInteger() { return }` (or by the same test at every call site)", "IsIota can be set for an enum that is not integer-backed")
 		// (2) gap test: a count compared with M+1, M being a running maximum of the member values (a local that the
 		// member loop raises to the value: `if M < v { M = v }`, `M = max(M, v)`)
 		maxVars := runningMaxVars(info, fi.Decl, loop, valVar)
